@@ -31,6 +31,8 @@ type FuncResult struct {
 	Pos      string
 	Callees  []string
 	Loops    int
+	Tags     string
+	NoLemmas bool
 }
 
 // GenFunc generates the verification conditions of fn against its contract.
@@ -86,6 +88,7 @@ func (g *Gen) init() {
 	g.nameVals = map[string][]ssa.Value{}
 	g.UsedSpecs = map[string]bool{}
 	g.rangeAssumed = map[string]bool{}
+	g.nameAddrs = map[string]ssa.Value{}
 	g.declare("str_empty", "Str")
 	g.assume(sEq(app("slen", "str_empty"), g.M.IxLit(0)))
 	g.strlits[""] = "str_empty"
@@ -296,6 +299,11 @@ func (g *Gen) collectNames() {
 			switch in := in.(type) {
 			case *ssa.DebugRef:
 				if in.IsAddr {
+					if obj, ok := in.Object().(*types.Var); ok && obj != nil {
+						if _, isAlloc := in.X.(*ssa.Alloc); isAlloc {
+							g.nameAddrs[obj.Name()] = in.X
+						}
+					}
 					continue
 				}
 				if obj, ok := in.Object().(*types.Var); ok && obj != nil {
@@ -478,6 +486,15 @@ func (g *Gen) loopEnv(l *Loop, st *State, subst map[ssa.Value]string) *SpecEnv {
 					env.iter = g.val(rg)
 					env.iterKeySort = g.L.CellSort(mt.Key())
 				}
+			}
+		}
+	}
+	for n, a := range g.nameAddrs {
+		if ai, ok := a.(ssa.Instruction); ok && (ai.Block().Dominates(l.Header) && !l.Blocks[ai.Block()]) {
+			et, _ := deref(a.Type())
+			env.vars[n] = SVal{T: et, Addr: g.val(a), Sort: g.sortOf(et)}
+			if isComposite(et) {
+				env.vars[n] = SVal{T: et, Addr: g.val(a), S: g.val(a), Sort: "Ptr"}
 			}
 		}
 	}
